@@ -496,9 +496,15 @@ func TestPipelines(t *testing.T) {
 				from := rapid.IntRange(50, 63).Draw(t, "walk.from")
 				land := 10 + rapid.IntRange(0, len(h.Stops)).Draw(t, "walk.land") // one past the stop range too
 				todo = []Action{{K: "csel", Sel: uint8(from)}}
-				for k := 0; k < 64-from+land; k++ {
-					col := ops.RGBAv(gen.PremulColor(t, "walk.c"))
-					todo = append(todo, Action{K: "creg", Incr: true, C: &col})
+				if rapid.IntRange(0, 2).Draw(t, "walk.direct") == 0 {
+					// ... or a selector argument of 64 or more that names such a register
+					todo = []Action{{K: "csel", Sel: uint8(land + 64*rapid.IntRange(1, 3).Draw(t, "walk.turns"))}}
+					labels["selector-argument>=64-naming-a-stop-register-then-helper"] = true
+				} else {
+					for k := 0; k < 64-from+land; k++ {
+						col := ops.RGBAv(gen.PremulColor(t, "walk.c"))
+						todo = append(todo, Action{K: "creg", Incr: true, C: &col})
+					}
 				}
 				todo = append(todo, h, Action{K: "path", F: []ops.F32{-20, -20, 20, -20, 0, 40}})
 				i += len(todo) - 1
